@@ -84,6 +84,10 @@ def build(e, cfg, d='/ds'):
                 e.assume(k >= prev)
             prev = k
             ks.append(k)
+        if cfg.get('names', 'ks') == 'alf':
+            # k/100*100 is below k in floating point for these values: truncation instead of rounding shows in replays
+            for k_, v_ in zip(ks, (29, 57, 58)):
+                e.prefer.insert(0, k_ == v_)
         e.prefer.append(sand(*[k <= 40 for k in ks]))
         am = [e.real('am%d' % i) for i in range(ns)]
         for a in am:
